@@ -612,6 +612,13 @@ impl Board {
             return false;
         }
 
+        // a side has at most 16 men (the move generator's list is sized for that)
+        if self.color_combined(Color::White).popcnt() > 16
+            || self.color_combined(Color::Black).popcnt() > 16
+        {
+            return false;
+        }
+
         // make sure there is exactly one white king
         if (self.pieces(Piece::King) & self.color_combined(Color::White)).popcnt() != 1 {
             return false;
